@@ -137,3 +137,28 @@ def rowids(rng, rows, p=0.4):
     big[:, 0] = a
     big[:, 1] = 0xFFFFFFFF
     return big[:, 0], "uint32-column-view"
+
+
+def reform(a, tag):
+    """Re-apply a recorded form tag ("<dtype>/<layout>") to the ordinary form (used by replay files)."""
+    a = numpy.asarray(a)
+    dt, _, lay = tag.partition("/")
+    if dt and dt != str(a.dtype):
+        a = a.astype(dt)
+    if lay in ("", "c-contiguous") or a.ndim == 0:
+        return a
+    if lay == "fortran":
+        return numpy.asfortranarray(a)
+    if lay == "transposed-store":
+        return numpy.transpose(numpy.ascontiguousarray(numpy.transpose(a)))
+    if lay == "strided":
+        big = numpy.zeros((a.shape[0] * 2,) + a.shape[1:], dtype=a.dtype)
+        big[::2] = a
+        return big[::2]
+    if lay == "negstride":
+        return a[::-1].copy()[::-1]
+    if lay == "readonly":
+        b = a.copy()
+        b.setflags(write=False)
+        return b
+    return a
